@@ -168,6 +168,15 @@ func GenR(rng *Rng, prop string, tier string) *RScript {
 	if prop == "C02" {
 		free = rng.Pct(50)
 	}
+	// base placement: source channel i is served by downstream channel perm[i] (identity, or - in part of the runs with
+	// free placement - a permutation, so that equally named channels of the two clusters are paired crosswise)
+	perm := make([]int, max(nP, nT))
+	for i := range perm {
+		perm[i] = i
+	}
+	if free && nT == nP && nP > 1 && rng.Pct(50) {
+		Shuffle(rng, perm[:nP])
+	}
 
 	ts := int64(1000) // ms offset; logical part varied below
 	logical := int64(0)
@@ -262,7 +271,7 @@ func GenR(rng *Rng, prop string, tier string) *RScript {
 				}
 			}
 			srcIdx = []int{si}
-			tgtIdx = []int{Pick(rng, others)}
+			tgtIdx = []int{perm[Pick(rng, others)]}
 			crossedAfter = alignedOn[si]
 		} else if prop == "C16" {
 			// unequal channel counts: the downstream places the collection's shards on its own channels
@@ -278,7 +287,10 @@ func GenR(rng *Rng, prop string, tier string) *RScript {
 			tgtIdx = append([]int(nil), t[:nShard]...)
 			sort.Ints(tgtIdx)
 		} else {
-			tgtIdx = srcIdx
+			tgtIdx = make([]int, len(srcIdx))
+			for i, si := range srcIdx {
+				tgtIdx[i] = perm[si]
+			}
 		}
 		sh := map[string]int{}
 		for i, si := range srcIdx {
